@@ -101,6 +101,11 @@ Theorem C15_batch_is_adds_then_dels : forall sort s adds dels, sort_ok sort -> s
 Proof. exact batch_is_adds_then_dels. Qed.
 Print Assumptions C15_batch_is_adds_then_dels.
 
+(* the boolean relation Run/C15.v uses to compare a batch result with the plain reading is that relation *)
+Theorem C15_upto_new_decided : forall p l1 l2, upto_new_b p l1 l2 = true <-> upto_new p l1 l2.
+Proof. exact upto_new_b_iff. Qed.
+Print Assumptions C15_upto_new_decided.
+
 (* the deletions of a batch may be taken in any order *)
 Theorem C15_batch_deletion_order_irrelevant : forall m adds dels dels', Permutation dels dels' ->
   match m_batch m adds dels, m_batch m adds dels' with
